@@ -128,6 +128,7 @@ structure Sys where
   gfound : GId → Bool                -- RegexGroup.found
   gtasks : GId → List Name           -- RegexGroup.tasks
   nextOid : Nat
+  inherited : Name → Bool            -- TaskDispatcher.inherited_status: created task name ↦ its placeholder had bad_deps
   nodes : Name → Option Node
   ready : List Name
   waiting : List Name
@@ -147,7 +148,7 @@ def lookup0 (l : List (Name × α)) (k : Name) : Option α :=
 
 def init (inp : Input) : Sys :=
   { tasks := lookup0 inp.tasks0, targets := lookup0 inp.targets0, created := fun _ => false, evaluated := [],
-    gfound := fun _ => false, gtasks := inp.gtasks0, nextOid := 1000,
+    gfound := fun _ => false, gtasks := inp.gtasks0, nextOid := 1000, inherited := fun _ => false,
     nodes := fun _ => none, ready := [], waiting := [], toRun := inp.sel, dispatched := [], cur := none,
     susp := .running, running := [], stop := false, final := 0, events := [] }
 
@@ -162,6 +163,10 @@ def stOf (s : Sys) (d : Name) : RS :=
 /-- `ExecNode(task, parent)` -/
 def mkNode (td : TDef) (anc : List Name) : Node := { task := td, pend := td.deps, anc := anc }
 
+/-- `_gen_node`, first time: `ExecNode(self.tasks[name], parent)` + `node.bad_deps.extend(inherited[0])` when the name
+    was registered by a creator whose placeholder node had bad_deps (repair of finding C05 delayed-group-subtasks-run) -/
+def mkNodeI (s : Sys) (d : Name) (td : TDef) (anc : List Name) : Node := { mkNode td anc with bad := s.inherited d }
+
 /-! ### `_gen_node`, `_node_add_wait_run`, `_update_waiting` (task_dep edges only) -/
 
 def genStep (s : Sys) (n : Name) (nd : Node) (d : Name) (pc' : PC) : Sys :=
@@ -171,7 +176,7 @@ def genStep (s : Sys) (n : Name) (nd : Node) (d : Name) (pc' : PC) : Sys :=
     match s.tasks d with
     | none => { s with susp := .err .crash }             -- `self.tasks[task_name]`: KeyError
     | some td =>
-      { setNode (setNode s d (mkNode td (nd.anc ++ [d]))) n { nd with pc := pc' } with ready := s.ready ++ [d] }
+      { setNode (setNode s d (mkNodeI s d td (nd.anc ++ [d]))) n { nd with pc := pc' } with ready := s.ready ++ [d] }
 
 def unfinished (s : Sys) (d : Name) : Bool := !(stOf s d).finished
 
@@ -265,7 +270,7 @@ def mustCreate (inp : Input) (s : Sys) (l : LId) (tT : TDef) : Bool :=
 
 /-- the creator is called (that is the observable event) and its tasks are registered; when `set_implicit_deps`
     raises ("Two different tasks can't have a common target") nothing is registered -/
-def evalCreator (inp : Input) (s : Sys) (l : LId) (tname : Name) : Sys :=
+def evalCreator (inp : Input) (s : Sys) (l : LId) (tname : Name) (bad : Bool) : Sys :=
   match regTargets s.targets (targetPairs (inp.make (inp.creatorOf l) tname)) with
   | none => { s with susp := .err .dupTarget, evaluated := s.evaluated ++ [inp.creatorOf l],
                      events := Ev.creator (inp.creatorOf l) :: s.events }
@@ -273,6 +278,7 @@ def evalCreator (inp : Input) (s : Sys) (l : LId) (tname : Name) : Sys :=
     { s with targets := tg, evaluated := s.evaluated ++ [inp.creatorOf l],
              tasks := insertNew tg s.nextOid s.tasks (inp.make (inp.creatorOf l) tname),
              nextOid := s.nextOid + (inp.make (inp.creatorOf l) tname).length,
+             inherited := fun k => (bad && (inp.make (inp.creatorOf l) tname).any (fun nt => nt.name == k)) || s.inherited k,
              events := Ev.creator (inp.creatorOf l) :: s.events }
 
 /-- the placeholder object after `add_implicit_task_dep(…, this_task, this_task.file_dep)`, `file_dep = {}` for a
@@ -326,9 +332,9 @@ def loaderStep (inp : Input) (s : Sys) (n : Name) (nd : Node) (l : LId) : Sys :=
   | none => { s with susp := .err .crash }               -- `self.tasks[to_load]`: KeyError
   | some tT =>
     if mustCreate inp s l tT then
-      match (evalCreator inp s l (toLoad inp l n)).susp with
-      | .err _ => evalCreator inp s l (toLoad inp l n)
-      | _ => afterCreate inp (evalCreator inp s l (toLoad inp l n)) n nd l
+      match (evalCreator inp s l (toLoad inp l n) nd.bad).susp with
+      | .err _ => evalCreator inp s l (toLoad inp l n) nd.bad
+      | _ => afterCreate inp (evalCreator inp s l (toLoad inp l n) nd.bad) n nd l
     else afterCreate inp s n nd l
 
 /-! ### the generators -/
@@ -377,7 +383,7 @@ def dtick (inp : Input) (s : Sys) : Sys :=
         | none =>
           match s.tasks t with
           | none => { s with susp := .err .crash }
-          | some td => { setNode s t (mkNode td [t]) with cur := some t, toRun := ts }
+          | some td => { setNode s t (mkNodeI s t td [t]) with cur := some t, toRun := ts }
       | [] =>
         if s.waiting ≠ [] then
           (if s.dispatched = [] then { s with susp := .err .cyclic } else { s with susp := .holdOn })
